@@ -14,7 +14,7 @@ TIMEOUT = {'quick': 1200, 'thorough': 7200}
 MUST_HIT = ['NonInterference.observe-others', 'FreshLoader.compare', 'IdentitySweep.pairs',
             'Mutation.new', 'Mutation.delete', 'Mutation.setattr', 'Mutation.relate', 'Mutation.unrelate',
             'Mutation.append_attribute', 'Mutation.insert_attribute', 'Mutation.delete_attribute',
-            'Mutation.define_unique_identifier', 'Mutation.define_class', 'History.late-create-table', 'History.rejected-input-call', 'History.filename_input', 'History.file_input',
+            'Mutation.define_unique_identifier', 'Mutation.define_class', 'History.late-create-table', 'History.rejected-input-call', 'History.late-association', 'FreshLoader.behaviour-compared', 'History.filename_input', 'History.file_input',
             'History.file-of-unchanged-size-read-again',
             'Build.generator-integer', 'Build.generator-uuid', 'Build.generator-default']
 MUST_REACH = ['xtuml/load.py:ModelLoader.build_metamodel', 'xtuml/load.py:ModelLoader.populate_classes',
@@ -186,6 +186,51 @@ def mutate(ctx, rng, m):
     return (k, mc.kind)
 
 
+def probe(ctx, seed, m):
+    '''-> [(step, outcome, observation)] of a short deterministic script run on metamodel *m*'''
+    import random
+    import xtuml
+    r = random.Random(seed)
+    out = []
+    for _ in range(6):
+        k = r.random()
+        classes = [mc for mc in m.metaclasses.values() if mc.storage]
+        if k < 0.4 or not classes:
+            desc = mutate(NoHits, r, m)
+            out.append((desc, None, hash(repr(observe(m)))))
+            continue
+        mc = classes[r.randrange(len(classes))]
+        inst = mc.storage[r.randrange(len(mc.storage))]
+        if k < 0.7 and mc.referential_attributes:
+            # a write to a referential attribute, under some spelling
+            a = sorted(mc.referential_attributes)[r.randrange(len(mc.referential_attributes))]
+            sp = r.choice((a, a.lower(), a.upper()))
+            ty = dict((x.upper(), t) for x, t in mc.attributes).get(a.upper(), 'INTEGER')
+            try:
+                setattr(inst, sp, sqlgen.random_value(r, ty if ty.upper() in sqlgen.CORE else 'INTEGER'))
+                res = 'accepted'
+            except Exception as e:
+                res = type(e).__name__
+            out.append((('set-referential', mc.kind, sp), res, hash(repr(observe(m)))))
+        else:
+            # every attribute read under the declared, the lower-case and the upper-case spelling
+            vals = []
+            for a, _ in mc.attributes:
+                for sp in (a, a.lower(), a.upper()):
+                    try:
+                        vals.append(repr(getattr(inst, sp)))
+                    except Exception as e:
+                        vals.append(type(e).__name__)
+            out.append((('read-spellings', mc.kind), tuple(vals), None))
+    return out
+
+
+class NoHits(object):
+    @staticmethod
+    def hit(name, n=1):
+        pass
+
+
 STATS = {}
 LAST_ROWS = []       # the complete insert statements of the last fragments() call
 
@@ -209,6 +254,14 @@ def fragments(rng):
                 STATS['late-create-table'] = STATS.get('late-create-table', 0) + 1
     LAST_ROWS[:] = rows
     rng.shuffle(rows)
+    if rng.random() < 0.3:
+        # an association (or an identifier) arrives with a later input, without any CREATE TABLE: rows and builds
+        # before it had to do without it
+        moved = [t for t in stmts if t.startswith(('CREATE ROP', 'CREATE UNIQUE INDEX')) and rng.random() < 0.6]
+        if moved:
+            stmts = [t for t in stmts if t not in moved]
+            late.extend(moved)
+            STATS['late-association'] = STATS.get('late-association', 0) + 1
     # the schema goes first so that most builds succeed; the rows are spread over later inputs
     n = rng.randint(1, 4)
     parts = [list(stmts)] + [[] for _ in range(n)]
@@ -313,6 +366,19 @@ def run_history(ctx, rng):
                 return log, ('later-build/differs-from-fresh-loader',
                              'build number %d differs from the build of a fresh loader with the same '
                              'inputs: %s' % (len(models) + 1, first_diff(ref, obs)))
+            if rng.random() < 0.5:
+                # ... and behaves like it: the same short script of changes, reads under other spellings and writes to
+                # referential attributes, run on one more build of this loader and on one of the fresh loader
+                ctx.hit('FreshLoader.behaviour-compared')
+                seed = rng.getrandbits(32)
+                a = probe(ctx, seed, loader.build_metamodel(xtuml.IntegerGenerator()))
+                b = probe(ctx, seed, fresh.build_metamodel(xtuml.IntegerGenerator()))
+                if a != b:
+                    n = [i for i, (x, y) in enumerate(zip(a, b)) if x != y][0]
+                    return log, ('later-build/behaves-unlike-fresh-loader',
+                                 'build number %d: step %d of a probe script (%r) has another outcome than on the build '
+                                 'of a fresh loader with the same inputs: %s / %s'
+                                 % (len(models) + 1, n, a[n][0], str(a[n][1:])[:300], str(b[n][1:])[:300]))
             # identity sweep against every earlier build
             note_immutables(m)
             mine = containers(m)
